@@ -62,7 +62,8 @@ def vet(prop: str, patch: str, demo_py: str, name: str, notes: str | None) -> in
         meta["repo_tests_with_change"] = last
         rc1, out1 = demo(repo, demo_py)
         meta["demo_with_change"] = {"exit": rc1, "tail": out1[-300:]}
-        ok = rc0 == 0 and rc1 != 0 and " passed" in last and "failed" not in last
+        import re as _re
+        ok = rc0 == 0 and rc1 != 0 and " passed" in last and not _re.search(r"\b\d+ (failed|error)", last)
         meta["confirmed"] = ok
         print(f"{name}: demo clean={rc0} changed={rc1}; tests: {last}; confirmed={ok}")
         if not ok:
